@@ -19,9 +19,10 @@ import (
 // ---- file system of the async searcher: names -> contents, with a crash index ---------------
 
 type vAFS struct {
-	files   map[string][]byte
-	ops     int
-	crashAt int
+	files     map[string][]byte
+	ops       int
+	crashAt   int
+	afterGlob func() // one-shot: runs after a directory listing was taken, before it is returned
 }
 type vACrash struct{}
 
@@ -80,6 +81,10 @@ func (v *vAFS) Glob(pattern string) ([]string, error) {
 		}
 	}
 	sort.Strings(out)
+	if f := v.afterGlob; f != nil {
+		v.afterGlob = nil
+		f() // time passes between taking the listing and using it
+	}
 	return out, nil
 }
 
@@ -318,10 +323,21 @@ func VerifAsync() {
 	rt.Assume(rt.And(1 <= vFS.crashAt, vFS.crashAt <= rt.Param("MAXOPS")))
 	req := AsyncSearchRequest{ID: "req1", Params: params, Query: vQuery}
 	started := false
+	var early *FetchSearchResultResponse
 	crashed := vRunCrash(func() {
 		err := as.StartSearch(req) // spawns processRequest; it runs when this thread waits below
 		rt.Assert(err == nil, "search starts")
 		started = true
+		if rt.Param("EARLYFETCH") == 1 && rt.Choose(2) == 1 {
+			// a client polls while the search is still running, and the search finishes while the poll
+			// is between listing the partial results and answering
+			vFS.afterGlob = func() { vWaitDone(as) }
+			if r, ok := as.FetchSearchResult(FetchSearchResultRequest{ID: "req1"}); ok {
+				early = &r
+			}
+			vFS.afterGlob = nil
+			rt.Reach("early-fetch")
+		}
 		vWaitDone(as)
 	})
 	_ = started
@@ -401,6 +417,9 @@ func VerifAsync() {
 				rt.Assert(w[bin] != nil, "no extra aggregation bin")
 			}
 		}
+	}
+	if early != nil && early.Done {
+		rt.Assert(len(early.QPR.IDs) == len(want.IDs) && (hasDup || early.QPR.Total == want.Total), "a poll that reports the search done carries the complete result")
 	}
 	rt.Reach("end")
 }
